@@ -731,17 +731,49 @@ pub fn bytes_strategy(_tier: Tier) -> BoxedStrategy<Case> {
     decoded_strategy(fuzz_domain)
 }
 
+const SEL: [u16; 3] = [0, 21846, 43691];
+/// history length of the bounded-exhaustive sub-check
+fn seq_len(tier: Tier) -> usize {
+    if tier == Tier::Quick {
+        4
+    } else {
+        5
+    }
+}
+/// alphabet of the bounded-exhaustive sub-check (see C01) plus clear_edges
+fn alphabet() -> Vec<Op> {
+    let mut a = vec![Op::AddNode(0), Op::Reverse, Op::ClearEdges];
+    for x in SEL {
+        a.push(Op::RemoveNode(x));
+        a.push(Op::RemoveEdge(x));
+        for y in SEL {
+            a.push(Op::AddEdge(0, x, y));
+        }
+    }
+    a
+}
+fn enum_count(tier: Tier) -> u64 {
+    2 * (alphabet().len() as u64).pow(seq_len(tier) as u32)
+}
+fn enum_make(tier: Tier, i: u64) -> Case {
+    let a = alphabet();
+    let mut ops = vec![Op::AddNode(0), Op::AddNode(0)];
+    ops.extend(crate::util::digits(i / 2, a.len() as u64, seq_len(tier)).into_iter().map(|d| a[d].clone()));
+    Case { directed: i % 2 == 0, width: 2, ops }
+}
+
 pub fn property() -> Property {
     Property {
         id: "C02",
-        rule: "operation histories (<=40 ops quick / <=160 thorough) over StableGraph<_,_,Directed|Undirected,u8|u16|u32|usize>, run under both build profiles (debug assertions on / off): add/try_add/update/try_update (valid, vacant, out-of-range endpoints, at the u8 limit), Build trait paths, remove_node/remove_edge (live, vacant, out of range), bursts of removals, retain_* with mutating closures, reverse, clear, clear_edges, extend_with_edges naming vacant and beyond-bound indices, weight writes, map, filter_map, clone/clone_from, Graph round trips; after every step the complete observation (every query, iterator, walker, contains_node, bounds, index maps) is compared with a slot model in which an insertion may take any non-live index; a failing call must leave the observation unchanged; any panic on a valid call is a violation; non-trivial = a failed try_*, reverse, clear_edges or extend executed while >= 2 vacancies exist, followed by a later insertion; distinct by fingerprint of the op sequence; the *-from-bytes sub-checks feed the same interpreter with histories decoded from generated byte strings by the libFuzzer codec (all operation kinds equally likely, up to the thorough-tier length)",
+        rule: "operation histories (<=40 ops quick / <=160 thorough) over StableGraph<_,_,Directed|Undirected,u8|u16|u32|usize>, run under both build profiles (debug assertions on / off): add/try_add/update/try_update (valid, vacant, out-of-range endpoints, at the u8 limit), Build trait paths, remove_node/remove_edge (live, vacant, out of range), bursts of removals, retain_* with mutating closures, reverse, clear, clear_edges, extend_with_edges naming vacant and beyond-bound indices, weight writes, map, filter_map, clone/clone_from, Graph round trips; after every step the complete observation (every query, iterator, walker, contains_node, bounds, index maps) is compared with a slot model in which an insertion may take any non-live index; a failing call must leave the observation unchanged; any panic on a valid call is a violation; non-trivial = a failed try_*, reverse, clear_edges or extend executed while >= 2 vacancies exist, followed by a later insertion; distinct by fingerprint of the op sequence; the *-from-bytes sub-checks feed the same interpreter with histories decoded from generated byte strings by the libFuzzer codec (all operation kinds equally likely, up to the thorough-tier length); bounded-exhaustive sub-check: every history of 4 (thorough: 5) operations over an 18-operation alphabet (add node, add edge between / remove node / remove edge at the first, middle and last position, reverse, clear_edges) after two initial nodes, directed and undirected, both build profiles",
         assumptions: &[
             "node_bound/edge_bound are only documented as upper bounds: asserted to lie between last live index + 1 and the number of indices handed out",
             "neighbour order of a StableGraph is not documented: lists compared as multisets",
         ],
         both_profiles: true,
         subs: vec![
-            sub_fuzz("stable/history", 240_000, 3_000_000, strategy, run, fuzz_domain), sub("stable/history-from-bytes", 150_000, 3_000_000, bytes_strategy, run),
+            sub_fuzz("stable/history", 240_000, 3_000_000, strategy, run, fuzz_domain),
+            sub_enum("stable/all-short-histories", enum_count, enum_make, run), sub("stable/history-from-bytes", 150_000, 3_000_000, bytes_strategy, run),
             sub("stable/u8-capacity", 8_000, 200_000, capacity_strategy, run),
         ],
     }
